@@ -339,6 +339,8 @@ def bi_pow(eng, args, kwargs, fr):
     if a == -1:
         e = zint(b)
         return SV(z3.If(e % 2 == 0, z3.IntVal(1), z3.IntVal(-1)), "int")
+    if a == 2 and is_intlike(b):
+        return SV(eng.facts.pow2_term(zint(b)), "int")
     return eng.binop(ast.Pow(), a, b)
 
 
